@@ -379,13 +379,29 @@ theorem text_eq_no_detection (evs : List Ev) : stdRun .none evs = evs.filterMap 
     · simpa using h
     · simpa using h
 
+/-- in `Quit` mode a counted match was printed -/
+theorem quit_match_printed (pre : List Ev) (h : (feed .quit {} pre).matchCount ≠ 0) :
+    pre.filterMap toItem ≠ [] := by
+  rw [feed_quit_matchCount] at h
+  have hpos : 0 < (pre.filter Ev.isMatched).length := by
+    have : ({} : St).matchCount = 0 := rfl
+    omega
+  obtain ⟨e, he⟩ := List.exists_mem_of_length_pos hpos
+  rw [List.mem_filter] at he
+  intro hnil
+  rw [List.filterMap_eq_nil_iff] at hnil
+  have hn := hnil e he.1
+  cases e <;> simp [toItem, Ev.isMatched] at hn he
+
 /-- **Implicit file, default mode (`Quit`)**: when the searcher reports binary data (and, being in
 `Quit` mode, stops), the output is what was printed before — nothing at all if nothing was
-("dropped") — followed by the warning iff a matching line had been printed ("cut off"). -/
+("dropped") — followed, whenever something was printed, by the warning ("cut off"; since fix
+ea82056 also when no line matched, in the wording without "after match"). -/
 theorem implicit_dropped_or_cut (pre : List Ev) (off : Nat) :
     stdRun .quit (pre ++ [.binaryData off]) =
       pre.filterMap toItem ++
-        (if (feed .quit {} pre).matchCount = 0 then [] else [.stoppedWarning off]) := by
+        (if pre.filterMap toItem = [] then []
+         else [if (feed .quit {} pre).matchCount = 0 then .stoppedNoMatch off else .stoppedWarning off]) := by
   have key : ∀ st : St, feed .quit st (pre ++ [.binaryData off]) =
       { feed .quit st pre with binOff := some off } := by
     induction pre with
@@ -395,11 +411,17 @@ theorem implicit_dropped_or_cut (pre : List Ev) (off : Nat) :
       cases ev <;> simp [feed, step, ih]
   unfold stdRun
   rw [key]
-  have h := feed_plain .quit (by decide) pre {}
-  simp only [finish]
-  split
-  · simp [h]
-  · simp [h]
+  have h : (feed .quit {} pre).out = pre.filterMap toItem := by
+    have := feed_plain .quit (by decide) pre {}
+    simpa using this
+  simp only [finish, cutShort, h]
+  by_cases hi : pre.filterMap toItem = []
+  · have hmc : (feed .quit {} pre).matchCount = 0 := by
+      apply Classical.byContradiction
+      intro hne
+      exact quit_match_printed pre hne hi
+    simp [hi, hmc]
+  · simp [hi]
 
 /-- **Explicit file or `--binary` (`Convert`)**: from the first `binary_data` on, no line of the
 file is written any more: the output is what was printed before, possibly context separators, and
@@ -484,7 +506,7 @@ theorem explicit_notice_only (pre post : List Ev) (off : Nat)
     · exact ⟨k, [], by rw [h1]; simp, Or.inl rfl⟩
     · exact ⟨k, [.binaryMatches o], by rw [h1]; simp, Or.inr ⟨o, rfl⟩⟩
 
-/-! ### the second sentence of the property, at full strength — false on the current tree -/
+/-! ### the second sentence of the property, at full strength (holds since fixes 8b6e9fb, ea82056) -/
 
 /-- Explicit file / `--binary`: "no notice and no match only if no line of it matches" —
 for the stream `evs` the searcher would deliver to a sink that never stops. -/
@@ -495,7 +517,7 @@ def NoticeIfMatch (evs : List Ev) : Prop :=
 /-- Traversed file, default mode: "cut off with a warning if lines were already printed". -/
 def WarnIfPrinted (pre : List Ev) (off : Nat) : Prop :=
   (∃ it ∈ stdRun .quit (pre ++ [.binaryData off]), it.isLine = true) →
-    (stdRun .quit (pre ++ [.binaryData off])).getLast? = some (.stoppedWarning off)
+    ∃ w, (stdRun .quit (pre ++ [.binaryData off])).getLast? = some w ∧ w.isWarning = true
 
 /-- **Explicit file or `--binary`: a notice or a match whenever a line matches** (full strength
 since fix 8b6e9fb: a context line no longer ends the search before a match was seen). -/
@@ -504,64 +526,55 @@ theorem notice_if_match (evs : List Ev) : NoticeIfMatch evs := by
   intro hm
   exact convert_notice_aux evs {} (Or.inr hm) (by intro h; simp at h)
 
+/-- **Traversed file, default mode: dropped, or cut off with the warning** — whatever was printed
+for the file (a matching line, context / passthru lines, even a lone context separator), the output
+ends with the warning; it says "after match" exactly if a matching line was delivered (full
+strength since fix ea82056; before, the warning depended on the match count). -/
+theorem implicit_cut_with_warning (pre : List Ev) (off : Nat)
+    (hne : stdRun .quit (pre ++ [.binaryData off]) ≠ []) :
+    (stdRun .quit (pre ++ [.binaryData off])).getLast? =
+      some (if (∃ e ∈ pre, e.isMatched = true) then Item.stoppedWarning off else Item.stoppedNoMatch off) := by
+  rw [implicit_dropped_or_cut] at hne ⊢
+  have hmc := feed_quit_matchCount pre {}
+  have hiff : (feed .quit {} pre).matchCount = 0 ↔ ¬ ∃ e ∈ pre, e.isMatched = true := by
+    rw [hmc]
+    have h0 : ({} : St).matchCount = 0 := rfl
+    rw [h0, Nat.zero_add, List.length_eq_zero_iff, List.filter_eq_nil_iff]
+    constructor
+    · intro h ⟨e, he, hm⟩; exact h e he hm
+    · intro h e he hm; exact h ⟨e, he, hm⟩
+  by_cases hi : pre.filterMap toItem = []
+  · simp [hi] at hne
+  · simp only [hi, if_false, List.getLast?_append, List.getLast?_singleton, Option.some_or]
+    by_cases hm : ∃ e ∈ pre, e.isMatched = true
+    · have : ¬ (feed .quit {} pre).matchCount = 0 := fun h => hiff.mp h hm
+      simp [this, hm]
+    · have : (feed .quit {} pre).matchCount = 0 := hiff.mpr hm
+      rw [if_pos this, if_neg hm]
+
+theorem warn_if_printed (pre : List Ev) (off : Nat) : WarnIfPrinted pre off := by
+  unfold WarnIfPrinted
+  intro ⟨it, hit, _⟩
+  have hne : stdRun .quit (pre ++ [.binaryData off]) ≠ [] := List.ne_nil_of_mem hit
+  rw [implicit_cut_with_warning pre off hne]
+  refine ⟨_, rfl, ?_⟩
+  split <;> rfl
+
 /-- The second sentence of C14 for every event stream. -/
 def C14_full : Prop := (∀ evs, NoticeIfMatch evs) ∧ (∀ pre off, WarnIfPrinted pre off)
 
-/-- It still fails on the current tree: in `Quit` mode the warning depends on the match count, not
-on what was printed (`--passthru`, or before-context whose matching line holds the NUL: lines are
-printed, then silence). -/
-theorem C14_full_fails : ¬ C14_full := by
-  intro h
-  have h1 := h.2 [.context 0 1 [108, 49, 10]] 8
-  revert h1
-  unfold WarnIfPrinted
-  decide
+/-- It holds (it failed before ea82056: `--passthru`, or before-context whose matching line holds
+the NUL — lines were printed, then silence). -/
+theorem C14_full_holds : C14_full := ⟨notice_if_match, warn_if_printed⟩
 
-/-- **Partial (`Quit`)**: if every stream in which a line was delivered before the detection also
-delivered a matching line (true without `--passthru`, unless the very first matching line holds
-the NUL), the output of a traversed binary file is empty or ends with the warning. -/
-theorem C14_partial_quit (pre : List Ev) (off : Nat) (hg : MatchIfLine pre = true) :
-    WarnIfPrinted pre off := by
-  unfold WarnIfPrinted
-  rw [implicit_dropped_or_cut]
-  intro ⟨it, hit, hline⟩
-  have hmc := feed_quit_matchCount pre {}
-  -- a line item comes from a matched or context event of `pre`
-  have hsome : pre.any (fun e => e.isMatched || e.isContext) = true := by
-    simp only [List.mem_append, List.mem_filterMap] at hit
-    cases hit with
-    | inl h =>
-      obtain ⟨e, he, hte⟩ := h
-      rw [List.any_eq_true]
-      refine ⟨e, he, ?_⟩
-      cases e <;> simp [toItem] at hte <;> subst hte <;> simp_all [Item.isLine, Ev.isMatched, Ev.isContext]
-    | inr h =>
-      split at h
-      · simp at h
-      · simp only [List.mem_singleton] at h
-        subst h
-        simp [Item.isLine] at hline
-  unfold MatchIfLine at hg
-  rw [hsome] at hg
-  simp only [Bool.not_true, Bool.false_or] at hg
-  rw [List.any_eq_true] at hg
-  obtain ⟨e, he, hem⟩ := hg
-  have hpos : (pre.filter Ev.isMatched).length > 0 := by
-    apply List.length_pos_of_mem (a := e)
-    rw [List.mem_filter]
-    exact ⟨he, hem⟩
-  have hne : (feed .quit {} pre).matchCount ≠ 0 := by
-    rw [hmc]
-    show 0 + _ ≠ 0
-    omega
-  simp [hne]
-
-/-- Non-vacuity of the guards: a `Convert` stream with a context line before the match still gets its notice; a
-stream with a match before the report satisfies `MatchIfLine`; both conclusions are non-trivial. -/
+/-- Non-vacuity: a `Convert` stream with a context line before the match still gets its notice; the
+former counterexample of the `Quit` half (a lone context line, then the NUL) now ends with the
+warning in its no-match wording; with a match it says "after match". -/
 example :
     stdRun .convert [.binaryData 4, .context 0 1 [97, 10], .matched 5 3 [98, 32, 120, 10]] = [.binaryMatches 4] ∧
-    MatchIfLine [.matched 0 1 [120, 10]] = true ∧
-    stdRun .quit ([.matched 0 1 [120, 10]] ++ [.binaryData 9]) = [.matchLine 1 [120, 10], .stoppedWarning 9] := by
+    stdRun .quit ([.context 0 1 [108, 49, 10]] ++ [.binaryData 8]) = [.contextLine 1 [108, 49, 10], .stoppedNoMatch 8] ∧
+    stdRun .quit ([.matched 0 1 [120, 10]] ++ [.binaryData 9]) = [.matchLine 1 [120, 10], .stoppedWarning 9] ∧
+    stdRun .quit ([] ++ [.binaryData 0]) = [] := by
   decide
 
 /-- `-c` / `-l` in `Quit` mode: the official match count of a file with binary data is squashed
